@@ -23,7 +23,7 @@ edzed = seams.install()
 
 PROP = 'C12'
 LEVEL = 'exploration'
-RUNS = {'quick': 30000, 'thorough': 1200000}
+RUNS = {'quick': 100000, 'thorough': 1200000}
 CHUNK = 500
 RULE = ("one run = one OutputAsync block (mode x guard_time x stop_data x stop_timeout "
         "generous/tight) x 1-6 puts on a time grid (same instant, during a run, during guard "
